@@ -6,7 +6,7 @@ import ast
 from ..interp import Interp
 from ..lib import is_call, loc
 from ..repo import walk_scope
-from ..terms import App, Atom, Obj, Sym, vkey
+from ..terms import App, Atom, Obj, Sym, mentions, vkey
 from .common import ds, dsid, scan
 
 R = "cascade.gateway.router"
@@ -314,7 +314,35 @@ def r3_job_table(ctx):
                               f"a report (progress 40.00, result D) for the new job {jid!r} is visible on the older job {j1!r}: get_result({j1}, D) -> {other[0]} "
                               f"{vkey(other[1])[:40]}, progress shown {vkey(sh2.get(j1))} (was {vkey(sh.get(j1))}) — jobs must not share their result container or progress")
                 continue
-            ctx.ok("C18.R3", L, "new job: id redrawn until unused, registered, existing jobs kept, state not shared with other jobs")
+            started = None
+            try:
+                started = ast.literal_eval(repo.consts["cascade.controller.report.JobProgressStarted"][1])
+            except Exception:
+                pass
+            if started is not None and (sh.get(jid) != started or sh.get(j1) != started):
+                ctx.violation("C18.R3", fi.qual, L, "a new job shows the 'started' progress",
+                              f"before any report the gateway shows {vkey(sh.get(jid))[:60]} for a new job; expected JobProgressStarted = {started!r}")
+                continue
+            # wiring: the socket the controller will report to is the one the gateway polls, and the subprocess is told this job's id and that socket's address
+            reg = [e for e in p.effects if e.kind == "call" and e.data.get("method") == "register" and e.data["args"]]
+            binds = [e for e in p.effects if e.kind == "call" and e.data.get("method") in ("bind_to_random_port", "bind")]
+            sp = [e for e in p.effects if is_call(e, qual=f"{R}._spawn_subprocess")]
+            socks = {vkey(e.data.get("recv_value") if e.data.get("recv_value") is not None else e.data.get("recv")) for e in binds}
+            if len(sp) != 1 or not binds:
+                ctx.undecided("C18.R3", L, f"cannot see how the controller process is started ({len(sp)} spawn calls, {len(binds)} binds)")
+                continue
+            spargs = list(sp[0].data["args"]) + list(sp[0].data["kwargs"].values())
+            if not any(vkey(e.data["args"][0]) in socks for e in reg):
+                ctx.violation("C18.R3", fi.qual, L, "report socket polled",
+                              f"the socket bound for the new job's reports ({sorted(socks)}) is not registered with the gateway's poller "
+                              f"(registered: {[vkey(e.data['args'][0])[:50] for e in reg]}): its reports are never read and the job shows 'started' for ever")
+                continue
+            if jid not in spargs or not any(any(mentions(a, vkey(b.data.get("result"))) for b in binds if b.data.get("result") is not None) or
+                                            any(vkey(b.data.get("result")) in vkey(a) for b in binds) for a in spargs):
+                ctx.violation("C18.R3", fi.qual, L, "controller told its job id and report address",
+                              f"the controller process is started with {[vkey(a)[:60] for a in spargs]}; expected this job's id {jid!r} and the address of the socket just bound")
+                continue
+            ctx.ok("C18.R3", L, "new job: id redrawn until unused, registered, shows 'started', report socket polled, controller given id + address, nothing shared")
     except _Stuck as e:
         ctx.undecided("C18.R3", L, str(e))
 
